@@ -113,7 +113,49 @@ def run_trxline(case):
             'tags': {'trx-line': 1}, 'outcomes': ['trx-line'], 'sample': case}
 
 
+def run_sweep(case):
+    """the power sweep of transmission_simulation (behind gnpy-transmission-example): the network is designed again for every
+    power of SI.power_range_db; the fibres (connector losses with EOL, pads) stay as the first design left them, and the
+    sweep visits the documented powers"""
+    from gnpy.core.elements import Fiber
+    from gnpy.tools.worker_utils import transmission_simulation
+    viol = []
+    eq = tg.library(case)
+    eq['SI'][0]['power_range_db'] = list(case['range'])
+    topo = topology(dict(case, graph='P2', chain_rev='F80'))
+    try:
+        net, equipment, req, ref = c.design(topo, eq, source='trx A', destination='trx B')
+    except Exception as exc:  # noqa
+        return {'status': 'rejected', 'tags': {f'design-raised:{type(exc).__name__}': 1}}
+
+    def fibres():
+        return {n.uid: (n.params.con_in, n.params.con_out, n.params.att_in, n.params.length) for n in net.nodes() if isinstance(n, Fiber)}
+    before = fibres()
+    try:
+        path, props, powers, infos = transmission_simulation(equipment, net, req, ref)
+    except Exception as exc:  # noqa
+        return {'violations': [dict(fingerprint=f'sweep-raised:{type(exc).__name__}', what=str(exc)[:200], case=case)], 'transitions': 1}
+    after = fibres()
+    if after != before:
+        u = next(k for k in before if before[k] != after.get(k))
+        viol.append(dict(fingerprint='sweep-changed-fibre-settings', what=f'power sweep {case["range"]} with EOL {case["EOL"]}: fibre {u} '
+                         f'(con_in, con_out, att_in, length) {before[u]} before, {after[u]} after', case=case))
+    lo, hi, step = case['range']
+    exp = [lo + i * step for i in range(int(round((hi - lo) / step)) + 1)] if step else [0]
+    if power_mode_of(case) and [round(float(x), 6) for x in powers] != [round(x + case.get('si_power', 0), 6) for x in exp]:
+        viol.append(dict(fingerprint='sweep-powers', what=f'sweep {case["range"]} around {case.get("si_power", 0)} dBm visited '
+                         f'{[float(x) for x in powers]}', case=case))
+    return {'violations': viol, 'transitions': len(props), 'traces': 0 if viol else 1, 'nontrivial': case['EOL'] != 0,
+            'tags': {'power-sweep': 1}, 'sample': case}
+
+
+def power_mode_of(case):
+    return case.get('mode', 'power') == 'power'
+
+
 def run_case(case):
+    if case.get('kind') == 'sweep':
+        return run_sweep(case)
     import numpy as np
     from gnpy.core.elements import Edfa, Multiband_amplifier, Fiber, RamanFiber, Fused, Roadm, Transceiver
     if case.get('kind') == 'trxline':
@@ -339,6 +381,12 @@ def main(rep, tier, seed):
         for txp in (None, 0, 0.0, 1.5, -3):
             for mode in ('power', 'gain'):
                 cases.append({'kind': 'trxline', 'si_power': si_power, 'tx_power_dbm': txp, 'mode': mode})
+    for chain_ in ('F80_E_F70', 'F40_U_F30', 'F200'):
+        for eol in (0, 1.5):
+            for rng in ([-1, 1, 1], [0, 2, 0.5], [0, 0, 0.5]):
+                for mode in ('power', 'gain'):
+                    cases.append({'kind': 'sweep', 'chain': chain_, 'EOL': eol, 'range': rng, 'mode': mode, 'eq': 'test',
+                                  'si_power': 1 if chain_ == 'F200' else 0})
     results, stats = engine.run_pool('checks.c09', cases, horizon=300)
     rep.absorb(results)
     rep.cov['bound'] = f'<= {d} deviations from base points {bases} over {list(SPACE)}'
@@ -350,5 +398,5 @@ def main(rep, tier, seed):
                        'involved. Rounding ties are unjudged; Raman / multiband / per-frequency-loss spans are left to C08/C17.')
     rep.assumptions += ['span losses are read from the designed elements (C05 checks them against the documents)',
                         'design comb = automatic_nch(SI f_min, f_max, spacing) channels at SI power']
-    for k in ('clamped', 'rounded-inside-range', 'reduced', 'voa-optimised'):
+    for k in ('clamped', 'rounded-inside-range', 'reduced', 'voa-optimised', 'power-sweep'):
         rep.require(rep.tags.get(k, 0) >= 1, f'{k} never observed')
